@@ -26,7 +26,10 @@ Inductive tr_obs :=
 | OErr
 | OPanic.
 
-Record hist_case := { h_ops : list tr_op; h_obs : list tr_obs }.
+(** [h_tag]: bit mask of the connection-level shapes present in the input (set by the
+    encoder): 1 persistent session, 2 reconnect with cleanSession=false, 4 take-over,
+    8 closed by the broker before the connection ended; only used for the class *)
+Record hist_case := { h_ops : list tr_op; h_obs : list tr_obs; h_tag : N }.
 
 (** *** model trace *)
 Fixpoint model_trace (Q : quirks) (s : state) (ops : list tr_op) : list tr_obs :=
@@ -68,7 +71,7 @@ Definition expected (m : lmap) (t : string) : list (cid * qos) :=
   flat_map (fun e => if matchesb (split_slash (snd (fst e))) (split_slash t)
                      then [(fst (fst e), snd e)] else []) m.
 
-Fixpoint prop_trace (m : lmap) (ops : list tr_op) (obs : list tr_obs) : bool :=
+Fixpoint prop_trace (sp : spec_state) (ops : list tr_op) (obs : list tr_obs) : bool :=
   match ops, obs with
   | [], [] => true
   | TOp o :: r, ob :: obr =>
@@ -76,14 +79,15 @@ Fixpoint prop_trace (m : lmap) (ops : list tr_op) (obs : list tr_obs) : bool :=
        | Sub _ fqs, OAck b => Bool.eqb b (forallb (fun fq => wf_filter (fst fq)) fqs)   (* malformed rejected *)
        | Unsub _ _, OAck _ => true
        | Disc _, ONone => true
+       | Conn _ _, ONone => true
        | _, _ => false
-       end) && prop_trace (live_step m o) r obr
+       end) && prop_trace (spec_step sp o) r obr
   | TFind t :: r, ob :: obr =>
       (if has_wild t then true            (* not a topic NAME: outside the property *)
        else match ob with
-            | OFound il => found_agree (expected m t) il
+            | OFound il => found_agree (expected (live_of sp) t) il
             | _ => false
-            end) && prop_trace m r obr
+            end) && prop_trace sp r obr
   | _, _ => false
   end.
 
@@ -100,22 +104,23 @@ Definition is_wild_find (o : tr_op) : bool := match o with TFind t => has_wild t
 Definition class_hist (c : hist_case) : N :=
   if existsb is_found_nonempty (h_obs c) then
     (1 + bN (existsb is_nack (h_obs c)) 1 + bN (existsb is_disc (h_ops c)) 2
-       + bN (existsb is_found_multi (h_obs c)) 4 + bN (existsb is_wild_find (h_ops c)) 8)%N
+       + bN (existsb is_found_multi (h_obs c)) 4 + bN (existsb is_wild_find (h_ops c)) 8
+       + 16 * h_tag c)%N
   else 0%N.
 
 Definition check_hist_with (pinned : quirks) (c : hist_case) : result :=
   let mt := model_trace pinned st0 (h_ops c) in
   let corr := all2 obs_agree mt (h_obs c) in
-  let prop := prop_trace [] (h_ops c) (h_obs c) in
+  let prop := prop_trace sp0 (h_ops c) (h_obs c) in
   let attrib :=
     if prop then 0%N
     else if corr && q_abort_on_malformed pinned
-              && prop_trace [] (h_ops c) (model_trace ideal st0 (h_ops c)) then 1%N
+              && prop_trace sp0 (h_ops c) (model_trace ideal st0 (h_ops c)) then 1%N
     else 0%N in
   (corr, prop, class_hist c, attrib).
 
 Definition explain_hist_with (pinned : quirks) (c : hist_case) :=
-  (model_trace pinned st0 (h_ops c), prop_trace [] (h_ops c) (h_obs c)).
+  (model_trace pinned st0 (h_ops c), prop_trace sp0 (h_ops c) (h_obs c)).
 
 (** *** splitTopic on single strings *)
 Record split_case := { s_in : list string; s_obs : list (option (list string)) }.
